@@ -21,6 +21,7 @@ CLAIM_WAVE4 = ("Also proved (Props/C13_more.v): constructors accept exactly thei
                "heuristics characterised; RawDate::from_binary; days_until total/antisymmetric/additive; day numbers injective; "
                "a.add_days(a.days_until(b)) = b for all valid a, b; add_days succeeds exactly inside the representable range; "
                "parse o game_fmt o parse = parse for the three typed dates.")
+PROFILES = ["release", "debug"]   # a slice of the sweeps and the boundary arithmetic also run on the debug build
 # <<< a_c13
 
 DPM = [0, 31, 28, 31, 30, 31, 30, 31, 31, 30, 31, 30, 31]
